@@ -253,3 +253,60 @@ Proof.
       intros Hn. destruct (B Hn) as (X & _). discriminate X.
 Qed.
 
+
+
+(* ------------------------------------------------------------------ *)
+(** * a raise consumes the fault: afterwards every operation runs *)
+Lemma prim_raised_fault o eff w :
+  raised (prim o eff w) = true -> fault (wof (prim o eff w)) = None.
+Proof.
+  destruct (prim_cases o eff w) as [(w0 & E & _)|(w0 & E & _ & _ & _ & _ & _ & FN & _)]; rewrite E; cbn.
+  - discriminate.
+  - intros _. exact FN.
+Qed.
+
+Lemma sop_step_raised f o w :
+  raised (sop_step f o w) = true -> fault (wof (sop_step f o w)) = None.
+Proof.
+  destruct o; cbn [sop_step]; apply prim_raised_fault.
+Qed.
+
+Lemma run_shape_raised f sh : forall w,
+  raised (run_shape f sh w) = true -> fault (wof (run_shape f sh w)) = None.
+Proof.
+  induction sh as [|o sh IH]; intros w; cbn [run_shape].
+  - cbn. discriminate.
+  - pose proof (sop_step_raised f o w) as H.
+    destruct (sop_step f o w) as [w1|w1]; cbn [andthen wof raised] in *.
+    + apply IH.
+    + exact H.
+Qed.
+
+(** the removal of a partly written tree after a failed directory save *)
+Lemma drop_partial_session m f w :
+  reg (drop_partial m f w) = reg w /\ nuid (drop_partial m f w) = nuid w
+  /\ flag (drop_partial m f w) = flag w.
+Proof.
+  unfold drop_partial. destruct f; [auto|]. destruct m; [auto|].
+  destruct (is_dir (slot (fs w) 0)); [|auto].
+  pose proof (prim_session (TRm 0) (set_slot 0 Absent) w (fs_only_set_slot 0 Absent)) as (a & b & c & _).
+  cbn zeta in a, b, c. auto.
+Qed.
+
+Lemma drop_partial_absent m f w t :
+  fs w = Absent :: t -> drop_partial m f w = w.
+Proof.
+  intros H. unfold drop_partial. destruct f; [reflexivity|]. destruct m; [reflexivity|].
+  unfold slot. rewrite H. reflexivity.
+Qed.
+
+Lemma drop_partial_zip m w : drop_partial m Zip w = w.
+Proof. reflexivity. Qed.
+
+Lemma drop_partial_partial m w g n t :
+  fs w = Partial g n :: t -> fault w = None ->
+  fs (drop_partial (S m) Dir w) = Absent :: t.
+Proof.
+  intros H Hf. unfold drop_partial, slot. rewrite H. cbn [nth is_dir].
+  rewrite (prim_nofault _ _ _ Hf). cbn [wof]. unfold set_slot, set_fs, log. cbn [fs]. rewrite H. reflexivity.
+Qed.
